@@ -173,3 +173,9 @@ def search(rng, binaries, log):
         if f:
             return (c, f, il)
     return None
+
+
+def extra_checks(tier, rng, binaries, log):
+    """the REAL http_client (sim_driver client mode): see tools/clientsim.py"""
+    import clientsim
+    return clientsim.run(tier, rng.fork("client"), binaries, log, ['rx'])
